@@ -11,6 +11,9 @@ COMMON_TRUSTED = [
 
 # (file under coq/Gen, acra-vh arguments that print it): regenerated from /repo on every run
 GENERATORS = [
+    ("TypedRowsConsts.v", ["typedrows"]),
+    ("Trans.v", ["transgo"]),
+    ("WireDescConsts.v", ["wiredescconsts"]),
     ("CensorLogSites.v", ["c16fwsites"]),
     ("ColumnResolveConsts.v", ["c04colconsts"]),
     ("ColumnResolveWitness.v", ["c04colwitness"]),
@@ -134,22 +137,33 @@ PROPS = {
                 "n_quick": 50,
                 "n_thorough": 1500,
                 "model": True
+            },
+            {
+                "name": "c19rows",
+                "run_vo": "Model/RunTypedRows.vo",
+                "n_quick": 40,
+                "n_thorough": 600,
+                "model": True
             }
         ],
         "properties": [
             "C19",
-            "C19_mysql"
+            "C19_mysql",
+            "C19_rows"
         ],
         "trusted": [
             "modelled, not verified: the reveal step between the two processors is an arbitrary function of the decoded bytes (C01/C14 are about it); PostgreSQL wire framing of DataRow / RowDescription (pgproto3) around the cell and the type id; NULL cells never reach the processors (handleQueryDataPacket skips them)",
             "MySQL (Model/TypedMysql.v, Properties/C19_mysql.v): type encoders, DataDecoderProcessor / DataEncoderProcessor, updateFieldEncodedType, the fixed-length tail of ColumnDescription.Dump, the ONE-column data row of processTextDataRow / processBinaryDataRow / extractData and the rows of one result set sharing the column definition are modelled and replayed (domain c19my through the verif hook decryptor/mysql/export_verif_c19.go); not modelled: FLOAT / DOUBLE re-encoding (strconv float formatting), rows with several columns (positions: C12), packet framing and the error packet sent for an EncodingError (ProxyDatabaseConnection), a nil (0xfb) value inside a binary row",
             "Gen/TypedMysqlConsts.v regenerated from the compiled /repo packages by `acra-vh typedmy` on every run (MySQL column type ids, TypeConfigurations, specificTypes, BLOB flag, OK / EOF markers)",
+            "row level (Model/TypedRows.v, Properties/C19_rows.v, domain c19rows): GetParameterFormatByIndex, BindPacket.GetResultFormats, the per-column format look-ups of parseColumns and the column loop of PgProxy.handleQueryDataPacket + onColumnDecryption are modelled and replayed: the REAL proxy (both goroutines, vh.PgRig, fake back end) answers Parse/Bind/Describe/Execute and simple sessions for rows of 1..4 columns, every DataRow / error response / closed session the client sees is replayed on handle_data_row. Inputs of the row model, not verified here: the list of settings per result position (the statement analysis, C04), the reveal step per cell (the harness tells the model `revealed to the original` exactly when the reader owns the keys and the stored value is a whole envelope; C01/C14), the byte framing of DataRow / Bind (pgproto3 on both ends of the rig; parseColumns' splitting and updateDataFromColumns: C12); the fake back end sends bytea text output as \\x + hex",
+            "Gen/TypedRowsConsts.v regenerated from the compiled /repo packages by `acra-vh typedrows` on every run (bindFormatText / bindFormatBinary / dataFormatText / dataFormatBinary through the add-only hook decryptor/postgresql/export_verif_s64.go, base.TextFormat / BinaryFormat, the two flags of the substitute setting &config.BasicColumnEncryptionSetting{})",
             "Gen/TypedConsts.v regenerated from the compiled /repo packages by `acra-vh typed` on every run (registered encoders, type id tables, accepted data_type / response_on_fail words)",
             "strconv.ParseInt/FormatInt, encoding/hex, encoding/base64, unicode/utf8, utils.DecodeEscaped are modelled in Gallina and compared with the Go functions on every run (ops PInt, Esc, Hex, B64, Utf8)"
         ],
         "assumptions": [
             "settings of plain encryption columns (crypto_envelope + reencrypting_to_acrablocks, no tokenization / masking / searchable options)",
             "case (a) of the matrix: the protected value is a value of the declared type (integer literal of the declared width for int32/int64)",
+            "rows: C19_rows_typed_outcome / C19_rows_error_policy carry the side conditions of C19_typed_outcome_matrix per column; C19_rows_unprotected_unchanged: nothing to reveal in the column and the cell does not DecodeEscaped to the empty string (exact: C19_rows_unprotected_hexlike_refuted, known finding unprotected-hexlike-value)",
             "MySQL matrix: the database's column is of a binary type (Type.IsBinaryType: BLOB family, VAR_STRING, STRING, VARCHAR), values are not empty; integer database columns are covered by C19_mysql_int_binary_cell_roundtrip and by the replay"
         ]
     },
@@ -192,7 +206,8 @@ PROPS = {
     "C13": {
         "properties": [
             "C13",
-            "C13_statements"
+            "C13_statements",
+            "C13_lex"
         ],
         "domains": [
             {
@@ -208,6 +223,13 @@ PROPS = {
                 "n_quick": 100,
                 "n_thorough": 2500,
                 "model": True
+            },
+            {
+                "name": "c13lex",
+                "run_vo": "Model/RunSqlLex.vo",
+                "n_quick": 100,
+                "n_thorough": 1500,
+                "model": True
             }
         ],
         "level": "proof",
@@ -221,6 +243,7 @@ PROPS = {
             "sql.go is the goyacc output committed in /repo; it is what runs. A change of sql.y alone changes Gen/Prec.v (proofs then fail) but not the running parser",
             "C13_statements: Gen/SqlWords.v regenerated on every run (`acra-vh sqlwords`, hook sqlparser.VerifKeywords): the tokenizer's keyword table (= the table formatID consults), the keyword tokens of the model's grammar with their compiled spelling, non_reserved_keyword / function_call_nonkeyword / interval_units of sql.y, the convert_type and keyword-function alternatives (checked against sql.y, generation fails when they disappear), clause strings and the LimitType enum of ast.go",
             "C13_statements, modelled not verified: (1) the statement parser of the model is a recursive-descent parser for the PRINTED language (aliases with AS, one spelling per operator); it is tied to the LALR parser sql.go by replay on every printed tree incl. trees the grammar cannot build (SRound: parse result, syntax error, wf verdict), not on arbitrary input text; (2) the theorems are about tokens: the byte-exact text printer (stext) and the tokenizer model (lex) are replayed against String() / Tokenizer on every case and on token soup (SLex); toks(pp t) = print t is proved, lex(stext t) = print t is NOT (C13_escape_roundtrip covers string literals); (3) identifiers with bytes >= 0x80 are treated as must-quote (Go iterates runes and truncates them to 16 bits); (4) the reflect/type-switch export of real trees to model terms (c13s_export.go)",
+            "C13_lex (Properties/C13_lex.v, domain c13lex): the tokenizer link lex(stext t) = print t is now PROVED over the tokenizer model SqlStmtText.lex for every well-formed statement whose pieces are locally lexable (loc: decidable; holds for every identifier/keyword the printer emits, constrains literal and cast spellings, bind variables numbered in print order) and that does not use an unquoted \"@@\" name as a qualifier (refuted: known finding lex-sysvar-qualifier). Still trusted: that SqlStmtText.lex is the real Tokenizer for comment-free text (replayed: c13s SRound/SLex, c13lex LAdj on every tree incl. hostile edits, LLex on every ordered pair of lexeme classes glued and spaced); no refinement proof between SqlStmtText.lex and the checked C14 model Model/SqlTokenizer.v (C14_tok_spec_is_C13_scanner covers string scanning only); loc is a premise, not derived from wf (replayed: every parser-built round-tripping tree must satisfy adj_ok)",
             "C13_statements, outside the model (counted as outside:* in the evidence; differential oracle of the c13 domain only): comments, SQL_CACHE/STRAIGHT_JOIN hints, PARTITION clauses, index hints, NEXT VALUE, SUBSTR, MATCH, GROUP_CONCAT, JSON operators, DEFAULT(col), charsets in CONVERT types, casts of non-literals, list arguments, sub-selects whose text starts with '(' , qualified keyword-named functions, single-quoted names outside aliases, MySQL ANSI mode, DDL/SET/SHOW/PREPARE"
         ],
         "assumptions": [
@@ -260,6 +283,10 @@ PROPS = {
         ]
     },
     "C02": {
+        "properties": [
+            "C02",
+            "C02_readpath"
+        ],
         "domains": [
             {
                 "name": "c02",
@@ -288,6 +315,13 @@ PROPS = {
                 "n_quick": 22,
                 "n_thorough": 400,
                 "model": True
+            },
+            {
+                "name": "c02rp",
+                "run_vo": "Model/RunReadPath.vo",
+                "n_quick": 24,
+                "n_thorough": 240,
+                "model": True
             }
         ],
         "trusted": [
@@ -295,12 +329,14 @@ PROPS = {
             "modelled, not verified: gRPC transport, TLS handshake and certificate-to-id mapping (network/tls_authentication.go); the keystore is reduced to 'the keyset an identity resolves to'",
             "hooks (verif build tag, add-only): network/export_verif.go (constructor of the client-id carrying connection), pseudonymization/export_verif.go (generateDataID and storage constants)",
             "key store part: storage names only; key-encryption contexts and the Themis cell are exercised by the harness (relocation oracle), not modelled; harness/vh/memfs.go (in-memory filesystem.Storage written for the harness) and vh.SpyBackend record the paths the real key stores access; Gen/KeyNames.v is derived from those observations with a probe id; ValidateID's rune loop is modelled as a byte loop over the accepted byte set probed from the real function; Go's filepath.Join/Clean is not modelled (name_v2 is defined only for ids that Join leaves verbatim; JoinPlain cases tie that predicate to the real filepath.Join)",
+            "read-path part (domain c02rp, Properties/C02_readpath.v): harness/c02rprig builds the PostgreSQL / MySQL proxy factories like cmd/acra-server (in-memory token storage wrapped by the real SCellEncryptor) and drives them without the wire through the add-only hooks export_verif_s65.go (encryptor/{postgresql,mysql}: QueryDataEncryptor.encryptWithColumnSettings; decryptor/{postgresql,mysql}: the query encryptors of a proxy) and the x11old hooks (onColumnDecryption, subscribers); modelled, not verified: how the proxies put the access context of the connection and the setting of the column into the context (the rig does what server.go / handleDataRow do); settings of one flavour per schema, token_type bytes, no zones, MySQL decoder / encoder outside the driven chain",
             "token part: modelled TokenType_Bytes only; MemoryTokenStorage (boltdb/redis scope by the same AggregateTokenContextToBytes: read, not modelled); hex.EncodeToString of map keys taken as injective; TokenValue protobuf decoder restricted to canonical encodings; literals `client`/`zone` checked by replay only"
         ],
         "assumptions": [
             "Correct C (Themis seal/wrap round-trip and length laws) as an explicit premise; NO unforgeability / key-commitment assumption: isolation theorems are reductions to an explicit forgery witness or a shared key",
             "plaintext length < 2^32-1024",
             "v1 key-name injectivity excludes the legacy AcraConnector key pair purposes (refuted with them: known finding keyname-collision-legacy-connector)",
+            "read path, tokens: nothing in the history of writes was protected for B (B's connection may have written values into columns naming other clients); B's own values are covered by the c02rp oracle only",
             "detokenization: no operation of the history ran under B's storage scope (B's own tokenizations are outside the statement; covered by the harness oracle); SHA-256 / HMAC collisions appear as explicit witnesses, never assumed away"
         ]
     },
@@ -311,8 +347,10 @@ PROPS = {
             "C14_wire",
             "C14_tokens",
             "C14_wire_mysql",
+            "C14_wire_desc",
             "C14_tokenizer",
-            "C14_parsers"
+            "C14_parsers",
+            "C14_trans"
         ],
         "domains": [
             {
@@ -337,6 +375,13 @@ PROPS = {
                 "model": True
             },
             {
+                "name": "c12desc",
+                "run_vo": "Model/RunPgDesc.vo",
+                "n_quick": 20,
+                "n_thorough": 600,
+                "model": True
+            },
+            {
                 "name": "c14tok",
                 "run_vo": "Model/RunSqlTokenizer.vo",
                 "n_quick": 250,
@@ -356,6 +401,13 @@ PROPS = {
                 "n_quick": 250,
                 "n_thorough": 6000,
                 "model": False
+            },
+            {
+                "name": "c14trans",
+                "run_vo": "Model/RunTrans.vo",
+                "n_quick": 60,
+                "n_thorough": 3000,
+                "model": True
             }
         ],
         "trusted": [
@@ -364,7 +416,8 @@ PROPS = {
             "Properties/C14_envelope.v holds the 55 envelope theorems of C14; Properties/C14.v re-exports it with the headline conjunction",
             "MySQL (Model/MysqlWireExt.v, Properties/C12_mysql.v, domain c12my): packet framing, classification, binary rows, column definition packets and the COM_STMT_EXECUTE parameter block are CHECKED models replayed through the add-only hook decryptor/mysql/export_verif_x12my.go; MaxPayloadLen is a parameter of the model (theorems for every value; the multi-packet branch of ReadPacket/Dump is tied to the real code only by the 16 MiB implementation oracle of the thorough tier, such literals cannot be replayed in Coq); the subscribers of a row (onColumnDecryption) and GetType/GetData/Encode of a bound value are arbitrary functions in the theorems and scripted in the replay (their own behaviour: C19 / Model/TypedMysql.v); the decimal text form of numeric parameters (strconv) is not modelled; Handler.handleStatementExecute and the capability accessors of the first packets are run on truncated packets by the implementation oracle only (hooks VerifX12HandleStatementExecute / VerifX12Capabilities), not modelled; Gen/WireMysqlConsts.v: type tables probed from extractData for all 256 type bytes and read from base.NumericTypesStorageBytes",
             "SQL tokenizer (Model/SqlTokenizer.v, Properties/C14_tokenizer.v, domain c14tok): string tokenizers only (InStream == nil, the constructors every acra entry point uses; the io.Reader refill branch of next() is not modelled); Go's utf8.DecodeRune(Last)InString and strings.IndexFunc/TrimFunc (used by ExtractMysqlComment) are re-stated in the model and tied by replay only, unicode.IsDigit/IsSpace are probed on every code point into Gen/SqlKeywords.v; bytes.ToLower is modelled as ASCII lower-casing (identifier bytes are ASCII); fmt's %d as decimal digits; the token stream of short boundary inputs is compared by record count + folded FNV-1a digest of the records (TokBatch), scripted ops byte by byte; stack use of the real tokenizer is an implementation oracle (runtime.MemStats.StackInuse around 150 000 version comments)",
-            "Properties/C14_parsers.v (37 theorems, domain c14par, Model/ParsersExt.v + Model/HashExt.v): searchable-hash extractor for any hash registry (ExtractHash, ExtractHashAndData, Processor.OnColumn, NewHashProcessor / DecryptRotatedSearchable* slicing; boundary table of every length 0..70 x registered tags and neighbours x exact/spare capacity in EVERY tier), audit-log plaintext/CEF line parsers and the log file scanner, key file name parsers of keystore v1 (DescribeKeyFile, getContextFromFilename), ring path parser of keystore v2 (DescribeKeyRing), SNIOrHostname, TrimStringToN, binaryType.UnmarshalJSON, HexIdentifierConverter.Convert are CHECKED models replayed against the real functions; trusted there: strings.TrimSpace / strings.Contains keep the functional form of Model/AuditLog.v (C20), path.Clean / filepath.Dir are Model/Path.v (validated by domain c07), time.Parse (isHistoricalFilename) is an input bit, base64.StdEncoding.Decode and SHA-512 are abstract functions (decoder contract: at most DecodedLen(len src) bytes written), bufio.Scanner is modelled by its documented line/limit behaviour (exact for lines up to limit-2 and from limit on); inline string literals of describeV1/describeV2 come from go/ast (Gen/ParsersConsts.v); the JSON line parser stays under the implementation oracle (encoding/json tokenizer outside the model, see C20_json)"
+            "Properties/C14_parsers.v (37 theorems, domain c14par, Model/ParsersExt.v + Model/HashExt.v): searchable-hash extractor for any hash registry (ExtractHash, ExtractHashAndData, Processor.OnColumn, NewHashProcessor / DecryptRotatedSearchable* slicing; boundary table of every length 0..70 x registered tags and neighbours x exact/spare capacity in EVERY tier), audit-log plaintext/CEF line parsers and the log file scanner, key file name parsers of keystore v1 (DescribeKeyFile, getContextFromFilename), ring path parser of keystore v2 (DescribeKeyRing), SNIOrHostname, TrimStringToN, binaryType.UnmarshalJSON, HexIdentifierConverter.Convert are CHECKED models replayed against the real functions; trusted there: strings.TrimSpace / strings.Contains keep the functional form of Model/AuditLog.v (C20), path.Clean / filepath.Dir are Model/Path.v (validated by domain c07), time.Parse (isHistoricalFilename) is an input bit, base64.StdEncoding.Decode and SHA-512 are abstract functions (decoder contract: at most DecodedLen(len src) bytes written), bufio.Scanner is modelled by its documented line/limit behaviour (exact for lines up to limit-2 and from limit on); inline string literals of describeV1/describeV2 come from go/ast (Gen/ParsersConsts.v); the JSON line parser stays under the implementation oracle (encoding/json tokenizer outside the model, see C20_json)",
+            "xtr: Gen/Trans.v is produced on every run by `acra-vh transgo` (harness/xtr: go/parser + go/types over the current /repo source) for 17 functions; Properties/C14_trans.v proves each translated definition equal to the hand-written checked model for all inputs. TRUSTED: the translator (harness/xtr, about 2000 lines of Go) and its reading of Go semantics: fixed-width wrap-around of + - * << on int/uintN, truncating conversions, bounds checks of a[i] / a[i:j] with cap = len (Lib/GoSlice.v), a nil slice behaves as the empty slice, values returned beside a non-nil error are dropped, package-level variables that are never written inside their own package are constants (aliasing writes from other packages are not detected), logrus calls with identifier/constant/len arguments have no effect and do not panic, constant expressions are evaluated by go/types; anything outside the subset makes the generator fail (broken tie). The translator itself is validated by domain c14trans: the real Go functions are replayed on the translated definitions (op tag T) and on the hand models (op tag H)"
         ],
         "assumptions": [
             "go_len s (len s <= 2^47, True of every Go byte slice) where the code converts len to uint64 or adds to it in int64",
@@ -733,7 +786,9 @@ PROPS = {
     "C12": {
         "properties": [
             "C12",
-            "C12_mysql"
+            "C12_mysql",
+            "C12_desc",
+            "C14_trans"
         ],
         "domains": [
             {
@@ -741,6 +796,13 @@ PROPS = {
                 "run_vo": "Model/RunWire.vo",
                 "n_quick": 150,
                 "n_thorough": 2500,
+                "model": True
+            },
+            {
+                "name": "c12desc",
+                "run_vo": "Model/RunPgDesc.vo",
+                "n_quick": 40,
+                "n_thorough": 2000,
                 "model": True
             },
             {
@@ -755,7 +817,8 @@ PROPS = {
             "modelled, not verified: Go's io.ReadFull/io.CopyN/bytes.Buffer/bufio.Writer (a reader over a byte stream yields the next n bytes or an error), encoding/binary, encoding/hex, unicode/utf8 ([]rune conversion and EncodeRune are written out in Model/Bytea.v and replayed against the real functions)",
             "the literal tag bytes 0xfb..0xfe and bounds 250/0xffff/0xffffff of decryptor/mysql/base/utils.go are written in the model (they are not named constants); the replay of the boundary table on every run ties them to the code",
             "Bind / Parse / Execute / GetSimpleQuery are CHECKED models (Lib/GoSlice.v; int(uint16)/int(uint32) written out; the NULL parameter marker 0xFFFFFFFF is a literal of utils.go tied by the replay of the edge table); several messages through one handler object are modelled as independent messages (Model/PgWire.v session: the history of the packet buffer must not show; op PgSession); PgProxy.handleClientPacket with a rewriting query observer (hooks VerifS14Proxy + VerifS32AddQueryObserver) is replayed as the handler-path op of the same message (Parse / Query; Bind through OnBind/SetParameters: implementation oracle only); not modelled (implementation oracle only, through the hook VerifS14Proxy): PgProxy.handleClientPacket / handleDatabasePacket around them (statement registry, pg_query, pgproto3's RowDescription/ParameterDescription codecs)",
-            "MySQL (Model/MysqlWireExt.v, Properties/C12_mysql.v, domain c12my): packet framing, classification, binary rows, column definition packets and the COM_STMT_EXECUTE parameter block are CHECKED models replayed through the add-only hook decryptor/mysql/export_verif_x12my.go; MaxPayloadLen is a parameter of the model (theorems for every value; the multi-packet branch of ReadPacket/Dump is tied to the real code only by the 16 MiB implementation oracle of the thorough tier, such literals cannot be replayed in Coq); the subscribers of a row (onColumnDecryption) and GetType/GetData/Encode of a bound value are arbitrary functions in the theorems and scripted in the replay (their own behaviour: C19 / Model/TypedMysql.v); the decimal text form of numeric parameters (strconv) is not modelled; Handler.handleStatementExecute and the capability accessors of the first packets are run on truncated packets by the implementation oracle only (hooks VerifX12HandleStatementExecute / VerifX12Capabilities), not modelled; Gen/WireMysqlConsts.v: type tables probed from extractData for all 256 type bytes and read from base.NumericTypesStorageBytes"
+            "MySQL (Model/MysqlWireExt.v, Properties/C12_mysql.v, domain c12my): packet framing, classification, binary rows, column definition packets and the COM_STMT_EXECUTE parameter block are CHECKED models replayed through the add-only hook decryptor/mysql/export_verif_x12my.go; MaxPayloadLen is a parameter of the model (theorems for every value; the multi-packet branch of ReadPacket/Dump is tied to the real code only by the 16 MiB implementation oracle of the thorough tier, such literals cannot be replayed in Coq); the subscribers of a row (onColumnDecryption) and GetType/GetData/Encode of a bound value are arbitrary functions in the theorems and scripted in the replay (their own behaviour: C19 / Model/TypedMysql.v); the decimal text form of numeric parameters (strconv) is not modelled; Handler.handleStatementExecute and the capability accessors of the first packets are run on truncated packets by the implementation oracle only (hooks VerifX12HandleStatementExecute / VerifX12Capabilities), not modelled; Gen/WireMysqlConsts.v: type tables probed from extractData for all 256 type bytes and read from base.NumericTypesStorageBytes",
+            "RowDescription / ParameterDescription (Model/PgDesc.v, Properties/C12_desc.v, domain c12desc): pgproto3's Decode/Encode of both messages as acra calls them are CHECKED models (the absolute position rp of pgproto3 is carried as the tail src[rp:]); handleRowDescription / handleParameterDescription / mapEncryptedTypeToOID / HasTypeAwareSupport and the byte-level dispatch of handleDatabasePacket are modelled AFTER the fix 'declare the length of the re-encoded description' and replayed through the hook VerifS14Proxy; a ColumnEncryptionSetting enters the model as the four accessor results the handlers read (OnlyEncryption, IsSearchable, GetMaskingPattern != \"\", GetDBDataTypeID), produced in the harness by real BasicColumnEncryptionSetting objects and by a scripted wrapper for the remaining combinations; the protocol-state bookkeeping of handleDatabasePacket (pending queries, ReadyForQuery clean-up) is not modelled, only that it leaves the bytes alone (oracle pg-db-relay over all 254 other type bytes); the first answer of the database (stateFirstPacket) is replayed through ReadPacket + IsSSLRequestAllowed/Deny because readMessageType is not exported, the TLS hand-over after 'S' is outside the model; Gen/WireDescConsts.v: PGPROTO3_MAX_BODY is read from the pgproto3 source file the harness was built from (unexported constant), a description above 1 GiB is never generated"
         ],
         "assumptions": [
             "message/payload lengths below 2^32 and column counts below 2^16 where the protocol's own fields are that wide (premises of the theorems)",
